@@ -23,6 +23,11 @@ LEVEL = 'exploration'
 BUDGET = {'quick': 75, 'thorough': 480}
 # deterministic sub-checks repeated in a `python -O` child (core.optimized_child)
 OPT_SUBS = ('stb/format-tokens', 'stb/grid', 'qemu/table')
+# documented call interface the generated calls rely on (vcheck/callstyle.py)
+INTERFACE = [('oslo_utils.strutils', ['string_to_bytes']), ('oslo_utils.imageutils.qemu', None)]
+# pairs of sampled cases are run against each other under every single
+# preemption inside these modules (core.preempt_pair)
+PREEMPT_MODULES = ['oslo_utils.strutils', 'oslo_utils.imageutils.qemu']
 RULE = ('string_to_bytes: (a) grid = 3 signs x 44 magnitudes (integers, '
         'decimals, leading dot, leading zeros, 30 digits, malformed) x 33 '
         'prefixes (the 22 of the statement, none, 10 foreign) x 8 units (b, '
@@ -761,6 +766,27 @@ def stb_format_tokens(col):
     col.exhaustive[sub] = True
 
 
+def stb_first_use(col, trials):
+    """Schedules: the first conversions in a process, by eight threads at
+    once (core.first_use_race) - one unit system per trial, a different
+    prefix per thread."""
+    sub = 'stb/first-use'
+
+    def make_jobs(t):
+        system = SYSTEMS[t % len(SYSTEMS)]
+        prefixes = [p for p in ADMITTED[system] if p != 'ki']
+        jobs = []
+        for i in range(8):
+            pre = prefixes[(t + i * 3) % len(prefixes)]
+            case = {'text': '%d%sB' % (i + 1, pre), 'system': system,
+                    'return_int': bool(i & 1)}
+            jobs.append((case['text'], case,
+                         lambda c=case: check_stb(core.Collector(), sub, c)))
+        return jobs
+
+    core.first_use_race(col, sub, ['oslo_utils.strutils'], make_jobs, trials)
+
+
 def _pred(fn):
     def pred(rec):
         case = rec.get('case') or {}
@@ -779,7 +805,9 @@ def tasks(tier, seed):
     else:
         slen, shards, n_rand, n_qemu = 6, 12, 20000, 6000
     out = [Task('probe', probe_known),
-           Task('stb/format-tokens', stb_format_tokens)]
+           Task('stb/format-tokens', stb_format_tokens),
+           Task('stb/first-use', stb_first_use,
+                trials=30 if tier == 'quick' else 300)]
     for i in range(shards):
         out.append(Task('stb/random', stb_random,
                         seed=core.derive_seed(seed, ID, 'stb', i),
@@ -806,7 +834,9 @@ def replay(rec):
     case = rec['case']
     sub = rec.get('sub', 'replay')
     col = core.Collector()
-    if case.get('fn') == 'qemu':
+    if case.get('first_use_threads'):
+        stb_first_use(col, case.get('trial', 0) + 1)
+    elif case.get('fn') == 'qemu':
         check_qemu(col, sub, case)
     elif 'text' in case:
         check_stb(col, sub, case)
